@@ -45,6 +45,8 @@ pub struct Shape {
     pub stack: Stack,
     /// run algorithms::diff_deadline under the symbolic clock (every expiry point)
     pub clock: bool,
+    /// Some: a long structured input (common.rs::long_layouts) instead of n x m free items
+    pub long: Option<Layout>,
 }
 
 #[derive(Debug, PartialEq, Eq, Clone)]
@@ -170,11 +172,23 @@ impl Prop for C08 {
             for n in 0..=max {
                 for m in 0..=max {
                     for stack in STACKS {
-                        v.push(Shape { alg, n, m, stack, clock: false });
+                        v.push(Shape { alg, n, m, stack, clock: false, long: None });
                         if n <= 3 && m <= 3 && matches!(stack, Stack::Bare | Stack::Replace | Stack::CompactReplace) {
-                            v.push(Shape { alg, n, m, stack, clock: true });
+                            v.push(Shape { alg, n, m, stack, clock: true, long: None });
                         }
                     }
+                }
+            }
+        }
+        // long structured inputs: the hook never fails or fails at finish / at a late call
+        for alg in ALGS {
+            for layout in long_layouts(tier == Tier::Thorough) {
+                let (n, m) = layout_lens(&layout, 0, 0);
+                if alg == Algorithm::Lcs && n * m > 60_000 {
+                    continue;
+                }
+                for stack in [Stack::Bare, Stack::CompactReplace] {
+                    v.push(Shape { alg, n, m, stack, clock: false, long: Some(layout) });
                 }
             }
         }
@@ -183,9 +197,13 @@ impl Prop for C08 {
 
     fn run(&self, s: &Shape) -> String {
         reset_hooks();
-        let inp = make_inputs(s.n, s.m, Layout::Slice { pre_o: 0, post_o: 0, pre_n: 0, post_n: 0 });
+        let inp = make_inputs(s.n, s.m, s.long.unwrap_or(Layout::Slice { pre_o: 0, post_o: 0, pre_n: 0, post_n: 0 }));
         let k = engine::fresh_int();
         engine::assume(&F::not(F::A(Atom::LtC(k, 0))));
+        if s.long.is_some() {
+            // every failing position of the (long) call stream is one path, plus "never fails"
+            engine::witness("long_structured_paths");
+        }
         let mut rec = Rec::<true>::new(k);
         let r = if s.clock {
             let clock = install_clock();
@@ -283,7 +301,7 @@ impl Prop for C08 {
         (s.n + s.m) as u64
     }
     fn shape_json(&self, s: &Shape) -> Value {
-        json!({"alg": alg_name(s.alg), "n": s.n, "m": s.m, "stack": s.stack.name(), "clock": s.clock})
+        json!({"alg": alg_name(s.alg), "n": s.n, "m": s.m, "stack": s.stack.name(), "clock": s.clock, "long": s.long.map(|l| l.to_json())})
     }
     fn shape_from(&self, v: &Value) -> Shape {
         Shape {
@@ -292,11 +310,12 @@ impl Prop for C08 {
             m: v["m"].as_u64().unwrap() as usize,
             stack: Stack::from(v["stack"].as_str().unwrap()),
             clock: v["clock"].as_bool().unwrap_or(false),
+            long: if v["long"].is_object() { Some(Layout::from_json(&v["long"])) } else { None },
         }
     }
     fn describe(&self, s: &Shape, ints: &[i64], _b: &[bool]) -> Value {
-        let mut d = describe_inputs(s.n, s.m, Layout::Slice { pre_o: 0, post_o: 0, pre_n: 0, post_n: 0 }, ints);
-        d["failing_call_index_k"] = json!(ints.get(s.n + s.m));
+        let mut d = describe_inputs(s.n, s.m, s.long.unwrap_or(Layout::Slice { pre_o: 0, post_o: 0, pre_n: 0, post_n: 0 }), ints);
+        d["failing_call_index_k"] = json!(if s.long.is_some() { ints.last() } else { ints.get(s.n + s.m) });
         if s.clock {
             d["deadline_probe_outcomes"] = json!(_b);
         }
@@ -311,10 +330,10 @@ impl Prop for C08 {
                 "similar::DiffOp::apply_to_hook (inside Compact::finish)",
                 "patience::Patience hook (equal/finish forwarding errors)",
             ],
-            bounds: format!("3 algorithms x n,m in 0..={} x adapter stacks {{none, &mut, Replace, Compact, Compact<Replace>, NoFinishHook, NoFinishHook<Replace>}}; the index k of the failing hook call is a z3 Int >= 0, each hook call i decides k == i, so every failing position (incl. finish) and 'never fails' are explored; for n,m<=3 and the stacks none / Replace / Compact<Replace> additionally through algorithms::diff_deadline under the symbolic clock (every expiry point x every failing position)", match tier { Tier::Quick => 4, Tier::Thorough => 5 }),
+            bounds: format!("3 algorithms x n,m in 0..={} x adapter stacks {{none, &mut, Replace, Compact, Compact<Replace>, NoFinishHook, NoFinishHook<Replace>}}; the index k of the failing hook call is a z3 Int >= 0, each hook call i decides k == i, so every failing position (incl. finish) and 'never fails' are explored; for n,m<=3 and the stacks none / Replace / Compact<Replace> additionally through algorithms::diff_deadline under the symbolic clock (every expiry point x every failing position); plus the long structured families of common.rs::long_layouts (about 30 (thorough 53) inputs of 40..600 items a side, stacks none and Compact<Replace>, every failing position of the call stream)", match tier { Tier::Quick => 4, Tier::Thorough => 5 }),
             outside: "lengths beyond the bound; hooks that fail more than once or panic".into(),
             assumptions: vec!["the failing hook returns its error exactly once".into()],
-            required_witnesses: vec!["paths_where_a_hook_call_failed", "paths_where_finish_failed", "paths_that_succeeded", "paths_with_default_replace", "paths_where_the_deadline_fired"],
+            required_witnesses: vec!["paths_where_a_hook_call_failed", "paths_where_finish_failed", "paths_that_succeeded", "paths_with_default_replace", "paths_where_the_deadline_fired", "long_structured_paths"],
             rule: "one state = one explored path = one equality pattern x one failing call index; one transition = one solver decision".into(),
         }
     }
